@@ -101,7 +101,7 @@ def generate(seed, tier):
         second['path'] = second['path'] + '_2'
         if second.get('src') == 'dir':
             d['cmds']['mkdir ' + second['path']] = {'content': {'size': 0}, 'cuts': []}
-        ops = ops + [{'op': 'maxchunk'}, {'op': 'close'}, {'op': 'connect'}, second, {'op': 'maxchunk'}]
+        ops = ops + [{'op': 'maxchunk'}] + ([{'op': 'close'}] if g.chance(0.5) else []) + [{'op': 'connect'}, second, {'op': 'maxchunk'}]      # connect() alone re-connects, too
     if not reconnect and g.chance(0.1):
         # "push returns normally only after the device's sync OKAY": the device answers FAIL instead (at SEND, at a DATA record or
         # as the final status), for every source kind -- the call must raise
